@@ -9,7 +9,7 @@ import numpy as np
 from hypothesis import strategies as st
 
 from vf import gen, obs, ops
-from vf.base import Discard, Failure, Raised, arr_list, canon, eq, lib, sf, short
+from vf.base import is_missing, Discard, Failure, Raised, arr_list, canon, eq, lib, sf, short
 from vf.harness import Sub
 
 PID = 'C01'
@@ -148,12 +148,35 @@ def _same_family(a, b):
     return isinstance(a, (sf.Index, sf.IndexHierarchy)) and isinstance(b, (sf.Index, sf.IndexHierarchy))
 
 
+def _lookups(c):
+    """What every label of c's indices resolves to (a position, or the class of the error), as a comparable tuple."""
+    axes = [c] if isinstance(c, (sf.Index, sf.IndexHierarchy)) else ([c.index] if isinstance(c, sf.Series) else [c.index, c.columns])
+    out = []
+    for ix in axes:
+        if len(ix) > 12:
+            out.append(None)
+            continue
+        res = []
+        for lab in ix:
+            key = tuple(lab) if ix.depth > 1 else lab
+            g = lib(ix.loc_to_iloc, key)
+            if isinstance(g, Raised):
+                res.append('raise:' + g.cls)
+            elif isinstance(g, (int, np.integer)):
+                res.append(int(g))
+            else:
+                res.append(repr(type(g).__name__))
+        out.append(tuple(res))
+    return tuple(out)
+
+
 def check_program(case):
     base = lib(_build, case['kind'], case['rec'])
     if isinstance(base, Raised):
         raise Discard('constructor rejected recipe')
     pool = [base]
     snaps = [obs.snap(base)]
+    looks = [_lookups(base)]
     assert_frozen(base, 'constructed %s' % case['kind'])
     classes = ['kind:' + case['kind']]
     visited = 0
@@ -170,6 +193,10 @@ def check_program(case):
             s1 = lib(obs.snap, p)
             if isinstance(s1, Raised) or s1 != s0:
                 raise Failure('mutated', 'after %s: container #%d (%s) changed: %s -> %s' % (opcase, q, type(p).__name__, short(s0, 300), short(s1, 300)))
+            # ... including what a label resolves to (the lookup structures of an index are state too)
+            l1 = _lookups(p)
+            if l1 != looks[q]:
+                raise Failure('mutated', 'after %s: container #%d (%s): its labels resolve to %s, before the call to %s' % (opcase, q, type(p).__name__, short(l1, 200), short(looks[q], 200)))
         if isinstance(r, Raised):
             classes.append('call-raised')
             continue
@@ -197,6 +224,7 @@ def check_program(case):
             if isinstance(x, (sf.Frame, sf.Series, sf.Index, sf.IndexHierarchy)) and len(pool) < 8 and not any(x is p for p in pool):
                 pool.append(x)
                 snaps.append(obs.snap(x))
+                looks.append(_lookups(x))
     return {'nt': ok_calls > 0 and visited > 0, 'cls': classes}
 
 
